@@ -16,6 +16,8 @@ import sys
 import time
 from pathlib import Path
 
+sys.set_int_max_str_digits(0)
+
 VERIF = Path(__file__).resolve().parents[2]
 COQ = VERIF / "coq"
 THEORIES = COQ / "theories"
@@ -35,6 +37,8 @@ FORBIDDEN = re.compile(
 # ----------------------------------------------------------------------------- Coq terms
 
 def z(n: int) -> str:
+    if n.bit_length() > 8192:
+        raise OverflowError("observed integer too large to ship to Coq")
     return str(n) if n >= 0 else f"({n})"
 
 
